@@ -222,6 +222,12 @@ def via_builder(prog, seed=None, native=None):
             as_objects = seed is not None and rng.random() < 0.3
             for attempt in (e, False):
                 inner = ParallelBlockBuilder() if body[0] == "parallel_block" else SequentialBlockBuilder()
+                stmts = body[1:]
+                if body[0] == "subcircuit_block":
+                    # "body: what statements the macro expands to" may be any block builder: here the subcircuit block itself
+                    inner = SubcircuitBlockBuilder() if body[1] == "" else SubcircuitBlockBuilder(body[1])
+                    stmts = body[2:]
+                    choices.append("macro-body-is-a-subcircuit-block")
                 in_macro[0] = True
                 pobjs.clear()
                 if as_objects:
@@ -229,7 +235,7 @@ def via_builder(prog, seed=None, native=None):
 
                     pobjs.update({n: Parameter(n, None) for n in params})
                 try:
-                    for x in body[1:]:
+                    for x in stmts:
                         emit(inner, x, set(params), attempt)
                 except Unresolvable:
                     in_macro[0] = False
